@@ -12,7 +12,7 @@ from vlib.scripts import CORPUS, PAY1, PAY2, PAY3, ScriptRunner, c, down, render
 
 PROPERTY = "C17"
 LEVEL = "exploration"
-RULE = ("Hypothesis draws 2-3 scripts from a corpus of 11 (all verbs, STOR/APPE/RETR whole and restarted, LIST/MLSD, "
+RULE = ("Hypothesis draws 2-3 scripts from a corpus of 12 (all verbs, STOR/APPE/RETR whole and restarted, LIST/MLSD, "
         "renames, relative paths after CWD, TYPE, re-login, ABOR, error replies), re-rooted to disjoint subtrees, each "
         "with a user (same anonymous user, or different password-protected users), a network schedule tape (per-segment "
         "latency and segmentation), backend delays (read/write/list/open/stat) and optionally a victim session that is "
